@@ -6,8 +6,10 @@ import PnVerif.Model.HeaderText
     VARIANT int63 <0|1>  1: the tree carries the repair of B10-3/B10-5/B10-6 (64-bit header fields with the sign
                        bit set and begin + len > 2^63-1 refused with NC_ENOTNC: Safety.getBodyS / postPassS);
                        answers VARIANT int63 <0|1>.  Default 0 = the code as it stands.
+    VARIANT eof <0|1>    1: the tree carries the repair of F14 (a header read beyond the end of the file is refused with
+                       NC_ENOTNC: Safety.runE / runWE); answers VARIANT eof <0|1>.  Default 0.
     OPEN <hexfile>     what ncmpi_open + the inquiry functions report for these bytes according to
-                       the model (Safety.openGuardedS, limit 64 KiB beyond the end of the file):
+                       the model (Safety.openGuardedV, limit 64 KiB beyond the end of the file):
         ERR <NC code> F <bytes requested by hdr_fetch | ->
         OK <fmt> <numrecs|-> <ndims> <nvars> <ngatts> <unlimdim> D <len>... V <ndims> <type> <begin> <natts> <dimid>... ; ... F <bytes requested by hdr_fetch>
         BIG <copy|count> <stream position the offending read would reach>
@@ -29,12 +31,12 @@ def unlimOf (ds : List Dim) : Option Nat := ds.findIdx? (fun d => d.size == 0)
 
 def wd (w : Bool) : String := if w then " WIDE" else ""
 
-def showOpen (strict : Bool) (file : Bytes) : String :=
-  match openGuardedS strict 65536 file with
+def showOpen (v : Variant) (file : Bytes) : String :=
+  match openGuardedV v 65536 file with
   | .big b m w => s!"BIG {if b then "copy" else "count"} {m}{wd w}"
   | .err e w =>
     let f := match e with
-      | .hdr _ => toString (bytesFetchedS strict 262144 file)
+      | .hdr _ => toString (bytesFetchedV v 262144 file)
       | _ => "-"
     s!"ERR {e.code} F {f}{wd w}"
   | .ok h _ w =>
@@ -43,7 +45,7 @@ def showOpen (strict : Bool) (file : Bytes) : String :=
     let ui : Int := match u with | some i => i | none => -1
     let ds := String.intercalate " " ("D" :: h.dims.map (fun d => toString (asSigned d.size)))
     let vs := String.intercalate " " ("V" :: h.vars.map showVar19)
-    s!"OK {h.fmt.version} {nr} {h.dims.length} {h.vars.length} {h.gatts.length} {ui} {ds} {vs} F {bytesFetchedS strict 262144 file}{wd w}"
+    s!"OK {h.fmt.version} {nr} {h.dims.length} {h.vars.length} {h.gatts.length} {ui} {ds} {vs} F {bytesFetchedV v 262144 file}{wd w}"
 
 def showTrace (chunk : Nat) (file : Bytes) : String :=
   let t := decodeTrace chunk file
@@ -51,11 +53,11 @@ def showTrace (chunk : Nat) (file : Bytes) : String :=
   let nf := (t.filter (fun a => a.kind == .readDst)).length
   s!"{t.length} {bad} {decodeStuck chunk file} {nf} {bytesFetched chunk file}"
 
-def step (strict : Bool) (line : String) : String :=
+def step (v : Variant) (line : String) : String :=
   match tokens line.trimAscii.toString with
   | ["OPEN", hex] =>
     match ofHex hex with
-    | some f => showOpen strict f
+    | some f => showOpen v f
     | none => "bad-hex"
   | ["TRACE", c, hex] =>
     match c.toNat?, ofHex hex with
@@ -63,17 +65,20 @@ def step (strict : Bool) (line : String) : String :=
     | _, _ => "bad-args"
   | _ => "bad-op"
 
-partial def loop (h : IO.FS.Stream) (out : IO.FS.Stream) (strict : Bool) : IO Unit := do
+partial def loop (h : IO.FS.Stream) (out : IO.FS.Stream) (v : Variant) : IO Unit := do
   let line ← h.getLine
   if line.isEmpty then return ()
   match tokens line.trimAscii.toString with
-  | ["VARIANT", "int63", v] =>
-    out.putStrLn s!"VARIANT int63 {v}"
-    loop h out (v == "1")
+  | ["VARIANT", "int63", x] =>
+    out.putStrLn s!"VARIANT int63 {x}"
+    loop h out { v with int63 := (x == "1") }
+  | ["VARIANT", "eof", x] =>
+    out.putStrLn s!"VARIANT eof {x}"
+    loop h out { v with eof := (x == "1") }
   | _ =>
-    out.putStrLn (step strict line)
-    loop h out strict
+    out.putStrLn (step v line)
+    loop h out v
 
 def main : IO Unit := do
   let out ← IO.getStdout
-  loop (← IO.getStdin) out false
+  loop (← IO.getStdin) out Variant.current
